@@ -159,6 +159,8 @@ Lemma run_boot_inv : forall c (s : pstate) st r, Inv s -> run_boot es fuel enabl
   Inv (ms_p st) /\ (forall p, In p (ms_trace st) -> Inv p) /\ (r = ROk -> pending (ms_p st) = []).
 Proof.
   intros c s st r HI H. unfold run_boot in H. fold T in H.
+  destruct (beyond_registry _ _ _).
+  { inversion H; subst; simpl. refine (conj _ (conj _ _)); auto. contradiction. discriminate. }
   destruct (opt_out_attempt _ _ _).
   { inversion H; subst; simpl. refine (conj _ (conj _ _)); auto. contradiction. discriminate. }
   destruct (vcontains _ _); cbn [negb] in H.
